@@ -461,7 +461,9 @@ register(Contract(
     ensures=scml_clauses,
     events={'randomness-seeded': seeded, 'bookkeeping-attributes-assigned-by-every-fit': assigns('components_', 'n_iter_'),
             # documented low-rank case: fewer rows than features only together with a warning
-            'lowrank-only-with-warning': lambda a, ev, r: z3.Implies(comp(a).dim(0) < comp(a).dim(1), z3.BoolVal(any(e[0] == 'warn' for e in ev)))},
+            # (the warning itself is issued and verified inside _components_from_basis_weights, see its contract)
+            'lowrank-only-with-warning': lambda a, ev, r: z3.Implies(comp(a).dim(0) < comp(a).dim(1), z3.BoolVal(
+                any(e[0] == 'warn' for e in ev) or any(e[0] == 'call' and e[1] == 'scml:_BaseSCML._components_from_basis_weights' for e in ev)))},
     raises=dict(FIT_RAISES),
     modifies={'components_', 'preprocessor_', 'n_features_in_', 'n_iter_'},
     returns=fit_returns(lambda a: a.triplets.dim(2), None, ('n_iter_',)),
